@@ -117,6 +117,23 @@ func (m *c04Mon) Step(w *sessmc.World, e *sessmc.Event, obs []sessmc.Obs) (rule,
 		q, t0, kind = w.LastIn.Seq(), w.LastInT, inKind(w.LastIn)
 	}
 	wasNormalLoggedOn := strings.Contains(prev, "inSession")
+	if isIn && kind == "A" {
+		// a Logon that resets the store (ResetOnLogon, 141=Y) is measured against the numbers after the reset
+		for _, o := range obs {
+			if o.K == "st" && o.Op == "Reset" {
+				t0 = 1
+			}
+		}
+		// a gap on the Logon itself must open a recovery
+		if !m.active && q > t0 && strings.Contains(prev, "logon") && strings.Contains(st, "inSession") && !recovering(st) {
+			return "C04/R1-gap-on-logon-ignored", fmt.Sprintf("Logon numbered %d with expected number %d established the session without a recovery (expected number now %d)", q, t0, w.T())
+		}
+	}
+	// a replayed duplicate (PossDup with an OrigSendingTime not after its SendingTime) of something already received
+	// is ignored: it must not end the session
+	if isIn && e.In != nil && (e.In.PossDup || e.In.OrigSame) && q < t0 && len(e.In.Set) == 0 && e.In.TimeSkew == 0 && loggedOnState(prev) && !loggedOnState(st) {
+		return "C04/R4-duplicate-replay-ended-session state=" + prev, fmt.Sprintf("%s (number %d, expected %d) took the session from %s to %s", e.Name, q, t0, prev, st)
+	}
 	switch {
 	case !m.active && recovering(st) && !recovering(prev):
 		// episode starts (from normal operation, or on the Logon itself)
@@ -262,6 +279,8 @@ func c04Alphabet() []*sessmc.Event {
 	// early gap fills whose NewSeqNo does not move past their own number (a kept message that advances nothing)
 	a = append(a, sessmc.EvSeqReset(1, 0, "Y", false), sessmc.EvSeqReset(2, 0, "Y", true))
 	a = append(a, sessmc.EvTimeout(quickfix.VerifPeerTimeout), sessmc.EvTimeout(quickfix.VerifNeedHeartbeat), sessmc.EvFlush())
+	// the peer's TestRequest racing ahead of its replay; duplicates replayed within the same clock tick as the original
+	a = append(a, sessmc.EvIn("1", 1, false, fixscan.Field{112, "EARLY"}), sessmc.EvInOrigSame("D", -1), sessmc.EvInOrigSame("D", 0))
 	return a
 }
 
@@ -295,6 +314,12 @@ func init() {
 			mons: mk, stateCheck: c04Probe, variant: "C04/logon-gap"}
 	}
 	// the general C01 alphabet with the C04 monitor (all message kinds, from a never-connected session)
+	// gap on a Logon that also resets the store (acceptor with ResetOnLogon and counters left over from the
+	// previous connection): the gap is measured from 1
+	variantDefs["C04/logon-gap-reset"] = func(cfg sessmc.Config) searchSpec {
+		return searchSpec{cfg: cfg, alphabet: c04Alphabet(), prefix: []*sessmc.Event{sessmc.EvConnect(), sessmc.EvLogon(0, 6, "")},
+			mons: mk, stateCheck: c04Probe, variant: "C04/logon-gap-reset"}
+	}
 	variantDefs["C04/general"] = func(cfg sessmc.Config) searchSpec {
 		return searchSpec{cfg: cfg, alphabet: c01Alphabet(), mons: mk, stateCheck: c04Probe, variant: "C04/general"}
 	}
@@ -326,6 +351,12 @@ func runC04(c *core.Ctx) {
 		if c.Expired() {
 			break
 		}
+	}
+	for _, t := range []int{4, 9} {
+		cfg := sessmc.Config{BeginString: "FIX.4.2", ResetOnLogon: true, InitS: 5, InitT: t, InitMsgs: []string{"A", "D", "0", "D"}}
+		sp := variantDefs["C04/logon-gap-reset"](cfg)
+		sp.depth, sp.relative = dRec-2, true
+		runSearch(c, sp)
 	}
 	runConformance(c)
 	c.Set("depth_recovery", dRec)
